@@ -60,9 +60,68 @@ def load_pass(ctx):
         shutil.rmtree(tmp, ignore_errors=True)
 
 
+def self_opposite_pass(ctx):
+    """a reference that is its own opposite (a symmetric relation: friends, spouse): every mutator, symmetry after each
+    call — an object may be its own friend"""
+    from pyecore import ecore as E
+    n = 60 if ctx.quick() else 1500
+    for h in range(n):
+        rng = common.sub_rng(ctx.seed, 'C01', 'self-opposite', h)
+        many = h % 3 != 0
+        A = E.EClass('A')
+        fr = E.EReference('rel', A, upper=-1 if many else 1)
+        A.eStructuralFeatures.append(fr)
+        fr.eOpposite = fr
+        objs = [A() for _ in range(rng.randint(2, 4))]
+        log = []
+        for step in range(12 if ctx.quick() else 20):
+            x, y = rng.choice(objs), rng.choice(objs)
+            ys = rng.sample(objs, rng.randint(0, len(objs)))
+            if many:
+                op = rng.choice(['append', 'remove', 'clear', 'extend', 'insert', 'pop', 'assign', 'insert-bad-index'])
+            else:
+                op = rng.choice(['set', 'set', 'unset'])
+            log.append(f'o{objs.index(x)}.rel {op} {("o" + str(objs.index(y))) if op in ("append", "remove", "insert", "set", "insert-bad-index") else [objs.index(z) for z in ys] if op in ("extend", "assign") else ""}')
+            try:
+                if op == 'append':
+                    x.rel.append(y)
+                elif op == 'remove':
+                    x.rel.remove(y)
+                elif op == 'clear':
+                    x.rel.clear()
+                elif op == 'extend':
+                    x.rel.extend(ys)
+                elif op == 'insert':
+                    x.rel.insert(rng.randint(-3, 3), y)
+                elif op == 'insert-bad-index':
+                    x.rel.insert('a', y)
+                elif op == 'pop':
+                    x.rel.pop()
+                elif op == 'assign':
+                    x.rel = ys
+                elif op == 'set':
+                    x.rel = y
+                else:
+                    x.rel = None
+                ctx.count('self-opposite/' + op)
+            except Exception as e:
+                ctx.count('self-opposite/' + op + '/raised')
+            ctx.evaluations += 1
+            ctx.nontriv(('self-opposite', h, step))
+            vals = lambda o: list(o.rel) if many else ([o.rel] if o.rel is not None else [])
+            bad = next((f'o{objs.index(a)} holds o{objs.index(b)} but not the other way round' for a in objs for b in vals(a)
+                        if not any(c is a for c in vals(b))), None)
+            if bad:
+                ctx.violate({'clause': 'sym-self-opposite', 'many': many, 'op': op},
+                            f'reference that is its own opposite ({"many" if many else "single"}-valued), after {log[-1]}: {bad}',
+                            {'case': h, 'calls': log})
+                break
+
+
 def run(ctx):
     storecheck.run(ctx, CHECKS)
     load_pass(ctx)
+    self_opposite_pass(ctx)
     crossworld.symmetry_pass(ctx)
     crossworld.notification_pass(ctx, tag='C01u', judge='symmetry')
     ctx.rule += ('; plus saved XMI / JSON documents with one end of a bidirectional reference rewritten (another valid target, a '
